@@ -287,6 +287,15 @@ def parse(text: str) -> dict[str, MirFn]:
             blk = None
             i += 1
             continue
+        mk = re.match(r"^const ([A-Za-z_][\w:]*): (.+) = \{$", ln)
+        if mk and "promoted[" not in mk.group(1):
+            # a constant item whose value is computed by a body (a table literal, a call of a const fn): kept as a function without parameters
+            cur = MirFn("const:" + mk.group(1), ln)
+            fns.setdefault(cur.name, cur)
+            cur = fns[cur.name]
+            blk = None
+            i += 1
+            continue
         m = re.match(r"^fn (.+?)\((.*)\) -> (.+) \{$", ln)
         if m:
             cur = MirFn(m.group(1), ln)
